@@ -643,9 +643,6 @@ fn oracle(model: &mut Model, ctx: &Ctx, real: &Answers, expr: &str, all_envs: bo
 fn finding_for_tags(tags: &[String], why: &str) -> Option<&'static str> {
     let has = |t: &str| tags.iter().any(|x| x == t);
     if why.contains("side-effect free") {
-        if has("interp") {
-            return Some("F4");
-        }
         // a wrongly folded `..` decides a comparison, hence a branch, hence what is declared pure
         if has("numfmt") {
             return Some("F3");
